@@ -606,6 +606,59 @@ fn run_mt(t: char, threads: usize, per: usize, size: usize) -> (String, String, 
     )
 }
 
+
+/// C13: one established node<->node connection per transport; payloads around the declared maximum in
+/// both directions; after a rejected send a small message must still get through.
+fn run_size(t: char, c2a: bool, len: usize) -> (String, String, String, String) {
+    let tr = transport(t);
+    let a = TestNode::new();
+    let (_lid, addr) = a.handler.network().listen(tr, "127.0.0.1:0").unwrap();
+    let c = TestNode::new();
+    let (ep, _) = c.handler.network().connect(tr, addr).unwrap();
+    let case = format!("stream size {} {} {}", t, if c2a { "c2a" } else { "a2c" }, len);
+    if c.connected(DELIVERY_TIMEOUT).map(|x| x.1) != Some(true) {
+        return (case, "setup".into(), "FAIL setup".into(), "size".into())
+    }
+    // UDP has no Accepted: the acceptor learns the peer from a first datagram
+    let aep = if t == 'U' {
+        c.handler.network().send(ep, &[0]);
+        a.wait(DELIVERY_TIMEOUT, |evs| evs.iter().find_map(|e| if let Ev::Message(ep, _) = e { Some(*ep) } else { None }))
+    }
+    else {
+        a.accepted(DELIVERY_TIMEOUT)
+    };
+    let Some(aep) = aep else { return (case, "setup".into(), "FAIL setup".into(), "size".into()) };
+    let (tx, tx_ep, rx) = if c2a { (&c, ep, &a) } else { (&a, aep, &c) };
+    let before = rx.messages().len();
+    let payload = vec![0x5au8; len];
+    let st = tx.handler.network().send(tx_ep, &payload);
+    let delivered = if st == SendStatus::Sent {
+        rx.wait(Duration::from_secs(8), |evs| {
+            let ms: Vec<&Vec<u8>> = evs.iter().filter_map(|e| if let Ev::Message(_, d) = e { Some(d) } else { None }).collect();
+            if t == 'T' {
+                let got: usize = ms.iter().skip(before).map(|m| m.len()).sum();
+                if got >= len { Some(true) } else { None }
+            }
+            else if ms.len() > before { Some(ms[before].len() == len) } else { None }
+        })
+        .unwrap_or(false)
+    }
+    else {
+        false
+    };
+    // the connection must still be usable
+    let n1 = rx.messages().len();
+    let st2 = tx.handler.network().send(tx_ep, &[1, 2, 3]);
+    let after = st2 == SendStatus::Sent
+        && rx.wait(Duration::from_secs(3), |evs| if evs.iter().filter(|e| matches!(e, Ev::Message(..))).count() > n1 { Some(()) } else { None }).is_some();
+    let disconnected = |n: &TestNode| n.events.0.lock().unwrap().iter().any(|e| matches!(e, Ev::Disconnected(_)));
+    let max = tr.max_message_size();
+    let imp = format!("status={:?} delivered={} after={}", st, delivered, if after { "ok" } else { "broken" });
+    let expect_ok = if len <= max { st == SendStatus::Sent && delivered } else { st == SendStatus::MaxPacketSizeExceeded };
+    let ok = expect_ok && after && !disconnected(&a) && !disconnected(&c);
+    (case, imp, if ok { "ok".into() } else { format!("FAIL max={} disconnected={}", max, disconnected(&a) || disconnected(&c)) }, format!("size{},{}", t, if len > max { "above" } else if len + 2 > max { "at-limit" } else { "below" }))
+}
+
 fn main() {
     quiet_panics();
     let out = std::io::stdout();
@@ -643,6 +696,29 @@ fn main() {
                 emit(&mut out, &c, &im, &o, &tg);
             }
         }
+        "gen-sizes" => {
+            let thorough = arg(2) == "thorough";
+            let mut cases: Vec<(char, bool, usize)> = vec![];
+            for c2a in [true, false] {
+                for len in [65506usize, 65507, 65508, 70000] {
+                    cases.push(('U', c2a, len));
+                }
+                cases.push(('W', c2a, (16 << 20) + 1));
+                cases.push(('W', c2a, (32 << 20) + 1));
+                cases.push(('F', c2a, 70000));
+                cases.push(('T', c2a, 70000));
+                if thorough {
+                    for len in [(16usize << 20) - 1, 16 << 20, (32 << 20) - 1, 32 << 20, 40 << 20] {
+                        cases.push(('W', c2a, len));
+                    }
+                    cases.push(('F', c2a, 40 << 20));
+                }
+            }
+            for (t, c2a, len) in cases {
+                let (c, i, o, tg) = run_size(t, c2a, len);
+                emit(&mut out, &c, &i, &o, &tg);
+            }
+        }
         "run" => {
             // a recorded network run cannot be re-executed bit for bit: scenarios are re-run from the
             // case line with node peers in both roles (the conservative replay)
@@ -660,6 +736,10 @@ fn main() {
                         }
                         None => emit(&mut out, &line, "bad-case", "ok", ""),
                     }
+                }
+                else if ws.len() == 5 && ws[0] == "stream" && ws[1] == "size" {
+                    let (c, i, o, tg) = run_size(ws[2].chars().next().unwrap_or('W'), ws[3] == "c2a", ws[4].parse().unwrap_or(0));
+                    emit(&mut out, &c, &i, &o, &tg);
                 }
                 else if ws.len() >= 5 && ws[0] == "stream" && ws[1] == "mt" {
                     emit(&mut out, &line, "ok", "ok", "recorded");
